@@ -25,11 +25,12 @@ EXPLANATION = (
     "Engine.dtype resolver writes shared state (no memo keyed by native dtype objects, whose equality is coarser than "
     "pandera's); (R9) every engine-level check override establishes the kind of the other type (native type equality / isinstance / inherited check) besides comparing parameters; (R10) a resolver re-parses the printed name of a numpy dtype only under a test of its kind (sized string/bytes/void names are not parseable). (R11) register_dtype installs a from_parametrized_dtype hook only when the class defines it in its own namespace (`in cls.__dict__`) and reads it from there - an inherited hook re-registered for a user subclass would take over the parent's native types. " 
     " (R12) a dataclass field that the native constructor canonicalises (DateTime.tz) is re-bound from the native object in __post_init__, so equal native types give equal, equally hashed dtypes; (R13) the infer_dtype labels 'mixed-integer' / 'mixed' are equivalents of the object dtype only. " 
+    " (R14) no engine check() asserts the kind of the other dtype - it answers False. " 
     "NOT decided: closure of the runtime registry under resolve/print/resolve, "
     "parameterised types, anything depending on what pandas/numpy/pyarrow objects print."
 )
 LEVEL_RULE = "one obligation per registry row / key / family member / duplicate pair found in the current tree"
-FLOORS = {"R1": 150, "R2": 60, "R3": 5, "R4": 100, "R5": 6, "R6": 20, "R7": 20, "R8": 3, "R9": 8, "R10": 1, "R11": 1, "R12": 1, "R13": 2}
+FLOORS = {"R1": 150, "R2": 60, "R3": 5, "R4": 100, "R5": 6, "R6": 20, "R7": 20, "R8": 3, "R9": 8, "R10": 1, "R11": 1, "R12": 1, "R13": 2, "R14": 1}
 
 ENGINE_FILES = [
     "pandera/engines/numpy_engine.py", "pandera/engines/pandas_engine.py", "pandera/engines/pyarrow_engine.py",
@@ -724,6 +725,28 @@ def r13_infer_dtype_labels(ctx):
                 f"{label!r} is not registered: schema inference cannot resolve such a column"), f"{m.path}:{(bad[0][1].lineno if bad else 1)}")
 
 
+def r14_check_answers_false(ctx):
+    """`t1.check(t2)` is a question with a boolean answer; for a type of another kind the answer is False.  An
+    `assert isinstance(other, <own class>)` in an engine `check` turns that answer into an AssertionError, which escapes
+    schema validation (Column(pl.Decimal(10, 2)) on a float column) where the sibling engines report a dtype SchemaError."""
+    n = 0
+    for path in ENGINE_FILES:
+        m = ctx.ix.by_path.get(path)
+        if m is None or "pyspark" in path:
+            continue
+        for f in m.all_functions:
+            if f.name != "check" or f.cls is None or len(f.positional) < 2:
+                continue
+            other = f.positional[1]
+            n += 1
+            for a in walk_no_nested(f.node):
+                if isinstance(a, ast.Assert) and any(isinstance(x, ast.Call) and isinstance(x.func, ast.Name) and x.func.id == "isinstance" and x.args
+                                                     and other in txt(x.args[0]) for x in ast.walk(a.test)):
+                    ctx.ob("R14", f, f"{f.cls.name}.check answers False for a dtype of another kind", False,
+                           f"`{txt(a)[:70]}` asserts the kind of `{other}` instead of answering False: a column of another dtype makes validate raise AssertionError", f.loc(a))
+    ctx.ob("R14", "pandera/engines", "no engine check() asserts the kind of the other dtype", True, f"{n} check methods examined")
+
+
 def run(ctx):
     rows = registered_classes(ctx.ix)
     ctx.stats["registered_rows"] = len(rows)
@@ -744,6 +767,7 @@ def run(ctx):
     r11_own_hook_only(ctx)
     r12_canonical_fields(ctx)
     r13_infer_dtype_labels(ctx)
+    r14_check_answers_false(ctx)
     ctx.assume("equivalence keys are compared by normalised source text with import aliases expanded; keys that are "
                "equal only at run time (e.g. two spellings of one numpy dtype object) are not detected")
     ctx.assume("generated rows (_build_number_equivalents, _register_numpy_numbers, runtime pyarrow/pyspark objects) "
